@@ -196,6 +196,24 @@ CHECKS['C06'] = dict(
          'order) unchanged, second dump identical.',
     design='4 C06')
 
+CHECKS['C05'] = dict(
+    technique='Hypothesis-generated (model, value) round trips load(dumps(v)) '
+              '== v, with unambiguity decided independently by the reference '
+              'semantics on the documented projection; exhaustive pass over '
+              'the adversarial string pool x positions',
+    text='Generated models (hierarchies, discriminating recognisers, enums, '
+         'string-likes also as keys, Path, dates, Any/untyped, extras, '
+         'defaults, inverse sweeten/savorize pairs: default removal, '
+         'renaming, dashes, markers, _yatiml_attributes, seq/index<->map) x '
+         'values from the hard pools (number/bool/null/date/syntax look-alike '
+         'strings, non-finite floats, tz-aware datetimes, big ints), '
+         'optionally with a twice-referenced sub-object; plus every string of '
+         'the ~130-string adversarial pool at 13 positions (document, item, '
+         'key, value, typed/Any/untyped/extra attribute, extra key, string-'
+         'like, string-like key, UserString, Path). Values the reference does '
+         'not read back from their projection are discarded and counted.',
+    design='4 C05')
+
 NOT_YET = 'check not built yet in this session (work in progress)'
 
 
